@@ -11,6 +11,7 @@ from ..viol import Violation, require
 ID = 'C02'
 LEVEL = 'exploration'
 RULE = (
+    'S: every position of the dynamic-reordering trigger for each entry point of C09 (results must be the canonical references of their tables; full invariants). '
     'E: for n<=4 every function (2,4,16,256,65 536) under every order '
     '(n=4: 24 in thorough, 3 seeded in quick) is built node by node into '
     'one manager; the map table -> reference must be a function and '
@@ -35,7 +36,7 @@ ASSUMPTIONS = [
 ]
 
 ALPHA = {
-    'build': 10, 'repeat': 5, 'var': 2, 'cube': 2, 'apply': 6, 'ite': 2, 'quantify': 2,
+    'build': 10, 'repeat': 5, 'churn': 2, 'fork': 2, 'compare_all': 2, 'var': 2, 'cube': 2, 'apply': 6, 'ite': 2, 'quantify': 2,
     'let_const': 1, 'let_rename': 2, 'let_compose': 2, 'add_expr': 2,
     'to_expr': 2, 'drop': 5, 'gc': 4, 'gc_roots': 2, 'swap': 5, 'sift': 2,
     'reorder_to': 2, 'reorder_pairs': 1, 'declare': 2, 'add_var': 1,
@@ -50,6 +51,11 @@ def nontrivial_hist(w):
 
 def plan(tier, seed):
     specs = []
+    # trigger-position sweeps of dynamic reordering (machinery of C09)
+    for s_ in range(6 if tier == 'thorough' else 2):
+        specs.append(dict(kind='schedule', seed=seed * 100 + 60 + s_,
+                          only=None,
+                          examples=300 if tier == 'thorough' else 120))
     for n in (0, 1, 2, 3):
         for order in fix.orders(n):
             specs.append(dict(kind='routes', n=n, order=order, seed=seed))
@@ -219,6 +225,9 @@ def run_routes(spec, out, sample4=None):
 
 
 def run(spec, out):
+    if spec['kind'] == 'schedule':
+        from . import c09
+        return c09.run_schedule(spec, out)
     if spec['kind'] in ('routes', 'routes4'):
         run_routes(spec, out)
     else:
@@ -226,6 +235,9 @@ def run(spec, out):
 
 
 def replay_into(case, out):
+    if case.get('kind') == 'schedule':
+        from . import c09
+        return c09.replay_into(case, out)
     if case.get('kind') == 'history':
         return H.replay_into(case, out)
     spec = dict(kind=case['kind'], order=case['order'], seed=case['seed'])
